@@ -233,7 +233,126 @@ func selftestSensitivity(args []string) int {
 	return 0
 }
 
+// selftestDeterminism proves that a run is a function of its seed: for every
+// claimed property, the same run indices are executed in separate processes
+// at GOMAXPROCS 1, 4 and 16, three times each, alone and in batches of
+// different size (so that what ran before in the process cannot matter), and
+// every observable of every run (steps, switches, interleaving hash,
+// event-log hash, trace hash, tape hash, schedule hash, fault and probe
+// counts) must be identical across all executions (DESIGN.md §2.8).
 func selftestDeterminism(args []string) int {
-	fmt.Println("not built yet")
-	return 2
+	fs := flag.NewFlagSet("selftest-determinism", flag.ExitOnError)
+	props := fs.String("props", "C04,C12,C13,C19", "comma-separated property ids")
+	nSeeds := fs.Int("seeds", 200, "run indices per property")
+	seed := fs.Uint64("seed", 1, "batch seed")
+	race := fs.Bool("race", true, "also exercise the race binary for C12")
+	fs.Parse(args)
+	t0 := time.Now()
+	type obs = map[int64]string
+	report := map[string]any{}
+	bad := 0
+	for _, pid := range strings.Split(*props, ",") {
+		cfg := configs[pid]
+		if cfg == nil {
+			continue
+		}
+		sc := prepare(cfg.checkptr, cfg.race && *race, true)
+		bins := []struct {
+			name string
+			bin  string
+			env  []string
+		}{{"plain", sc.sim, nil}}
+		if cfg.race && *race {
+			bins = append(bins, struct {
+				name string
+				bin  string
+				env  []string
+			}{"race", sc.simRace, []string{"GORACE=halt_on_error=1 exitcode=66 atexit_sleep_ms=0 history_size=2"}})
+		}
+		for _, bn := range bins {
+			var ref obs
+			execs, mismatches := 0, []string{}
+			var mu sync.Mutex
+			type job struct {
+				gmp   int
+				batch int // runs per process
+			}
+			jobs := []job{{1, 1}, {4, 1}, {16, 1}, {4, 7}, {16, *nSeeds}, {1, 13}, {8, 1}, {8, 50}, {2, 3}}
+			results := make([]obs, len(jobs))
+			var wg sync.WaitGroup
+			sem := make(chan struct{}, 12)
+			for ji, jb := range jobs {
+				results[ji] = obs{}
+				for from := 0; from < *nSeeds; from += jb.batch {
+					to := from + jb.batch
+					if to > *nSeeds {
+						to = *nSeeds
+					}
+					wg.Add(1)
+					go func(ji int, jb job, from, to int) {
+						defer wg.Done()
+						sem <- struct{}{}
+						defer func() { <-sem }()
+						res := runChildRaw(bn.bin, []string{"run", "--prop", pid, "--tier", "quick", "--seed", fmt.Sprint(*seed), "--from", fmt.Sprint(from), "--to", fmt.Sprint(to), "--all-records"},
+							append([]string{fmt.Sprintf("GOMAXPROCS=%d", jb.gmp)}, bn.env...))
+						mu.Lock()
+						defer mu.Unlock()
+						execs += to - from
+						for _, ln := range strings.Split(res, "\n") {
+							if !strings.HasPrefix(ln, "{") || !strings.Contains(ln, "\"det\":") {
+								continue
+							}
+							var d struct {
+								Det *int64 `json:"det"`
+							}
+							if json.Unmarshal([]byte(ln), &d) != nil || d.Det == nil {
+								continue
+							}
+							results[ji][*d.Det] = ln
+						}
+					}(ji, jb, from, to)
+				}
+			}
+			wg.Wait()
+			ref = results[0]
+			for ji := range jobs {
+				if len(results[ji]) != *nSeeds {
+					mismatches = append(mismatches, fmt.Sprintf("job %+v produced %d of %d records", jobs[ji], len(results[ji]), *nSeeds))
+				}
+				for k, ln := range results[ji] {
+					if ref[k] != ln {
+						mismatches = append(mismatches, fmt.Sprintf("run %d differs between %+v and %+v:\n  %s\n  %s", k, jobs[0], jobs[ji], ref[k], ln))
+					}
+				}
+			}
+			key := pid + "/" + bn.name
+			report[key] = map[string]any{"run_indices": *nSeeds, "executions": execs, "configurations": len(jobs), "mismatches": len(mismatches)}
+			fmt.Printf("determinism %-10s %d run indices x %d process configurations (%d executions): %d mismatches\n", key, *nSeeds, len(jobs), execs, len(mismatches))
+			for i, m := range mismatches {
+				if i < 5 {
+					fmt.Println("  " + m)
+				}
+			}
+			bad += len(mismatches)
+		}
+		cleanupAll()
+	}
+	report["wall_s"] = time.Since(t0).Seconds()
+	report["seed"] = *seed
+	raw, _ := json.MarshalIndent(report, "", " ")
+	os.MkdirAll(filepath.Join(outDir, "evidence"), 0o755)
+	os.WriteFile(filepath.Join(outDir, "evidence", "determinism.json"), raw, 0o644)
+	if bad > 0 {
+		return 1
+	}
+	return 0
+}
+
+func runChildRaw(bin string, args, env []string) string {
+	cmd := exec.Command(bin, args...)
+	cmd.Env = append(os.Environ(), env...)
+	var ob bytes.Buffer
+	cmd.Stdout = &ob
+	cmd.Run()
+	return ob.String()
 }
